@@ -180,6 +180,19 @@ package engine
 //@     set st = 2
 //@   call (*WAL).Remove
 //@     requires [remove_after_flush] st == 2 && arg0 == walFileNames
+// ... and "returned without error" is not enough: a replay that was CANCELLED (the shard is closed while its
+// asynchronous replay is pending or running) also returns every file name and no error, having re-applied only a prefix
+// of the log - possibly nothing. The replay context is therefore asked after the replay, and the log is neither flushed
+// over nor removed unless it says "not cancelled".
+//@   ghost live bool = false
+//@   call (*WAL).Replay
+//@     set live = false
+//@   call .Err
+//@     set live = (ret0 == nil)
+//@   call (*shard).ForceFlush
+//@     requires [no_flush_over_a_cancelled_replay] live
+//@   call (*WAL).Remove
+//@     requires [log_of_a_cancelled_replay_is_kept] live
 
 // The replay callback: a record that cannot be applied stops the replay with its error (so the log is neither
 // flushed over nor removed); only the series-limit error is tolerated, as during the original write.
